@@ -35,6 +35,8 @@ typedef struct rec {
   _Atomic int reap_requested;
   _Atomic int released;
   _Atomic uint64_t ret_stamp;
+  _Atomic int where;          /* progress marker for diagnostics: 1 started, 10+y in step y, 100+y yielding, 200+y create/join, 300 at gate, 900 returned */
+  _Atomic int where_worker;
   uint32_t gen;
   myth_mutex_t * gate_m; myth_cond_t * gate_c; volatile int * gate_open;   /* optional: block until opened */
 } rec_t;
@@ -99,11 +101,13 @@ static __attribute__((noinline)) void body(rec_t * r, size_t n) {
   int y;
   hk_rng_t rng; hk_rng_seed(&rng, r->rseed, 81);
   for (y = 0; y <= r->yields; y++) {
+    atomic_store(&r->where, 10 + y); atomic_store(&r->where_worker, myth_get_worker_num());
     if (y < r->yields) {
       unsigned k = (unsigned)hk_below(&rng, 3);
-      if (k == 0) myth_yield_ex(myth_yield_option_steal_first);
-      else if (k == 1) myth_yield();
-      else { myth_thread_t c = myth_create(trivial, 0); myth_join(c, 0); }
+      if (k == 0) { atomic_store(&r->where, 100 + y); myth_yield_ex(myth_yield_option_steal_first); }
+      else if (k == 1) { atomic_store(&r->where, 150 + y); myth_yield(); }
+      else { atomic_store(&r->where, 200 + y); myth_thread_t c = myth_create(trivial, 0); atomic_store(&r->where, 250 + y); myth_join(c, 0); }
+      atomic_store(&r->where, 20 + y); atomic_store(&r->where_worker, myth_get_worker_num());
     }
     if (r->gate_m && y == 0) {
       myth_mutex_lock(r->gate_m);
@@ -121,7 +125,9 @@ static __attribute__((noinline)) void body(rec_t * r, size_t n) {
 
 static void * thread_main(void * a_) {
   rec_t * r = (rec_t *)a_;
+  atomic_store(&r->where, 1);
   body(r, r->canary);
+  atomic_store(&r->where, 900);
   atomic_store(&r->ret_stamp, myth_verif_stamp());
   atomic_store(&r->fn_returned, 1);
   return value_of(r->tag);
@@ -176,7 +182,10 @@ static void reap(rec_t * r) {
                r->tag, (unsigned long long)fin, (unsigned long long)c0);
       atomic_fetch_add(&g_tryjoin_busy, 1);
       myth_yield();
-      if ((++spins & 0xfff) == 0) HK_CHECK(now_s() - tj0 < 60.0, "reap:tryjoin-never-succeeds", "tryjoin of tag %d still busy after 60 s", r->tag);
+      if ((++spins & 0xfff) == 0) HK_CHECK(now_s() - tj0 < 120.0, "reap:tryjoin-never-succeeds",
+          "tryjoin of tag %d still busy after 120 s and %ld attempts: target progress marker %d (last seen on worker %d), function returned %d, finished stamp %llu, yields %d, child_first %d, stack %zu",
+          r->tag, spins, atomic_load(&r->where), atomic_load(&r->where_worker), atomic_load(&r->fn_returned),
+          (unsigned long long)myth_verif_finished_stamp(id, r->gen), r->yields, !(r->rseed & 4), r->stack_size);
     }
     break;
   }
